@@ -314,12 +314,11 @@ impl FilesParagraph {
 
     /// Copyright holders in the paragraph
     pub fn copyright(&self) -> Vec<String> {
+        // no field, no holders (not one empty holder)
         self.0
             .get("Copyright")
+            .map(|x| x.split('\n').map(|x| x.to_string()).collect::<Vec<_>>())
             .unwrap_or_default()
-            .split('\n')
-            .map(|x| x.to_string())
-            .collect::<Vec<_>>()
     }
 
     /// Set the copyright
